@@ -11,10 +11,8 @@ import (
 	"log/slog"
 	"net"
 	"os"
-	"runtime/debug"
 	"sync"
 	"testing"
-	"testing/synctest"
 	"time"
 
 	ic "github.com/libp2p/go-libp2p/core/crypto"
@@ -316,23 +314,7 @@ func bubble(t *testing.T, rt *rapid.T, f func()) {
 		hx.Bubble(t, rt, f)
 		return
 	}
-	var failure string
-	func() {
-		defer func() {
-			if r := recover(); r != nil {
-				failure = fmt.Sprintf("bubble did not shut down cleanly: %v\n%s", r, debug.Stack())
-			}
-		}()
-		synctest.Test(t, func(*testing.T) {
-			defer func() {
-				if r := recover(); r != nil {
-					failure = fmt.Sprintf("panic inside bubble: %v\n%s", r, debug.Stack())
-				}
-			}()
-			f()
-		})
-	}()
-	if failure != "" {
+	if failure := hx.RunBubble(t, f); failure != "" {
 		t.Fatalf("%s", failure)
 	}
 }
